@@ -266,6 +266,34 @@ def run(index, rep, tier):
             raise AnalysisError("R09.12: reader link requirement / writer SETS block not recognised (needs_link=%s passes_link=%s writes_sets=%s)" % (needs_link, passes_link, writes_sets))
         rep.check(writes_link, "R09.12", wcs.qualname, "SETS block written without LINK CHARACTERS", fn_where(wcs), "the SETS block names the matrix its character sets belong to",
                   "NexusWriter._write_character_subsets writes `BEGIN SETS; charset ...` without a `LINK CHARACTERS = <title>` statement, while NexusReader._get_char_matrix raises LinkRequiredError for an unlinked CHARSET as soon as more than one matrix has been read: a data set with two matrices of which the second has character subsets (e.g. a concatenated matrix) cannot be read back from the NEXUS it was written to")
+    rep.rule("R09.13", "what the header declares is what is written: the PHYLIP header's sequence count is the number of sequences of the matrix (len(matrix)), not the size of the namespace or of the label map; rows of a matrix are visited in namespace order (its iteration methods walk the namespace, never the row dictionary)")
+    with rep.section("R09.13"):
+        pw = index.function("dendropy.dataio.phylipwriter.PhylipWriter._write_char_matrix")
+        mparam = [p_ for p_ in pw.params if "matrix" in p_]
+        hdr = [c for c in calls_in(pw.node) if call_name(c) == "write" and c.args and isinstance(c.args[0], ast.BinOp) and isinstance(c.args[0].left, ast.Constant)
+               and isinstance(c.args[0].left.value, str) and c.args[0].left.value.count("%d") == 2]
+        if len(hdr) != 1 or not mparam or not isinstance(hdr[0].args[0].right, ast.Tuple):
+            raise AnalysisError("R09.13: PHYLIP header write not recognised")
+        cnt = hdr[0].args[0].right.elts[0]
+        src = cnt
+        if isinstance(cnt, ast.Name):
+            ds = [a.value for a in walk_no_nested(pw.node) if isinstance(a, ast.Assign) and norm(a.targets[0]) == cnt.id]
+            src = ds[0] if len(ds) == 1 else cnt
+        okc = isinstance(src, ast.Call) and call_name(src) == "len" and src.args and norm(src.args[0]) == mparam[0]
+        rep.check(okc, "R09.13", pw.qualname, "header sequence count is `%s`" % norm(src)[:40], fn_where(pw, hdr[0]), "the PHYLIP header count is len(%s)" % mparam[0],
+                  "PhylipWriter writes `%s` as the number of sequences: rows are written only for taxa that have a sequence (suppress_missing_taxa), so for a matrix that covers part of its namespace the header promises more rows than follow and the file cannot be read back" % norm(src)[:60])
+        CMq = "dendropy.datamodel.charmatrixmodel.CharacterMatrix"
+        nit = 0
+        for name in ("__iter__", "items", "values", "sequences", "keys"):
+            m = index.find_method(index.klass(CMq), name)
+            if m is None or m.cls.qualname != CMq:
+                continue
+            nit += 1
+            loops = [l for l in ast.walk(m.node) if isinstance(l, (ast.For, ast.comprehension))]
+            bad = [l for l in loops if "_taxon_sequence_map" in norm(l.iter)]
+            rep.check(not bad, "R09.13", m.qualname, "matrix iterated in row-dictionary order: %s" % (norm(bad[0].iter)[:40] if bad else ""), fn_where(m), "%s walks the namespace (or the matrix itself)" % m.qualname,
+                      "%s iterates `%s`: rows then come in the order the sequences were inserted, not in namespace order, so a writer built on it (FASTA) no longer writes the taxa in the order of the namespace and the round trip changes the row order" % (m.qualname, norm(bad[0].iter)[:50] if bad else ""))
+        rep.floor("R09.13", "iteration methods of CharacterMatrix", 3, nit)
     rep.rule("R09.7", "per-matrix parser state: every accumulator field the NeXML characters parser fills while reading one matrix is re-initialised at the start of the next (the parser object is reused across matrices)")
     nacc = unit_state_rule(index, rep, "R09.7", NXR + "._NexmlCharBlockParser", "parse_char_matrix", NXR + ".NexmlReader._parse_char_matrices")
     rep.floor("R09.7", "accumulator fields of the NeXML characters parser", 5, nacc)
